@@ -84,3 +84,15 @@ Theorem C10_function_body_runs : forall O h names body r args a rest vs' v,
     /\ r_stack r' = v :: rest /\ r_pc r' = a /\ r_vars r' = vs'.
 Proof. exact function_body_runs. Qed.
 Print Assumptions C10_function_body_runs.
+
+(* ---- the code DEF FN emits is the sequence the call runs (Proofs/DefShape.v) ---- *)
+From BL Require Import Lang.Token Proofs.DefShape.
+Theorem C10_def_statement_code : forall c fc fn (ps : list (col * ident)) body,
+  pure body = true -> lenN (postfix body) <= MAX_POOL -> lenN ps <= 32767 ->
+  let names := map (fun ci => ident_str (snd ci)) ps in
+  let code := [OpLiteral (VInt (Z.of_N (lenN ps))); OpDef (ident_str fn); OpJump 0] ++ map OpPop names ++ postfix body ++ [OpReturn] in
+  lenN code <= MAX_POOL ->
+  let s := SDef c (VUnary fc fn) (map (fun ci => VUnary (fst ci) (snd ci)) ps) body in
+  l_ops (snd (fst (cg_stmt s))) = code /\ snd (cg_stmt s) = [].
+Proof. exact def_statement_code. Qed.
+Print Assumptions C10_def_statement_code.
